@@ -1,4 +1,4 @@
-From QV Require Import model.Base model.Lang model.Sem proofs.SemProofs proofs.ScopeProofs proofs.FrameProofs props.C13.
+From QV Require Import model.Base model.Lang model.Sem proofs.SemProofs proofs.ScopeProofs proofs.FrameProofs model.Overload proofs.OverloadProofs props.C13.
 Open Scope Z_scope.
 Check (C13_partial_effects_in_source_order : forall names this st o1 i1 o2 i2 n1 n2 st',
   object_named names o1 = Some i1 -> object_named names o2 = Some i2 ->
@@ -17,3 +17,13 @@ Check (C13_partial_trace_only_grows : forall names this s st e o st' e',
 Check (C13_partial_block_effects_in_source_order : forall names this s rest st e o st' e',
   exec names this st e (SBlock (s :: rest)) = Def (o, st', e') ->
   exists o1 st1 e1 t1 t2, exec names this st e s = Def (o1, st1, e1) /\ trace st1 = t1 ++ trace st /\ trace st' = t2 ++ t1 ++ trace st).
+Check (C13_connected_signal_is_the_declared_one : forall ms args, callback_verdict ms = VConnect args ->
+  exists m, In m ms /\ m_args m = args /\ m_kind m = 0%N /\
+    forall x, In x ms -> m_kind x = 0%N /\ m_ret x = m_ret m /\ prefixb (m_args x) args = true).
+Check (C13_connected_variant_carries_most_arguments : forall ms m, uniquify ms = Some m -> forall x, In x ms -> (arity x <= arity m)%nat).
+Check (C13_ambiguous_overloads_are_rejected : forall ms x y, In x ms -> In y ms -> ~ comparable x y -> uniquify ms = None).
+Check (C13_default_argument_variants_collapse : forall ms, ms <> [] -> (forall x y, In x ms -> In y ms -> comparable x y) -> uniquify ms <> None).
+Check (eq_refl : comparable = fun x y => extends x y = true \/ extends y x = true).
+Check (eq_refl : extends = fun known m => (N.eqb (m_kind known) (m_kind m) && String.eqb (m_ret known) (m_ret m) && prefixb (m_args known) (m_args m))%bool).
+Check (eq_refl : uniquify [ {| m_kind := 0; m_ret := "void"; m_args := [] |}; {| m_kind := 0; m_ret := "void"; m_args := ["int"] |}; {| m_kind := 0; m_ret := "void"; m_args := ["QString"] |} ]%string = None).
+Check (eq_refl : callback_verdict [ {| m_kind := 0; m_ret := "void"; m_args := ["int"] |}; {| m_kind := 0; m_ret := "void"; m_args := [] |}; {| m_kind := 0; m_ret := "void"; m_args := ["int"; "bool"] |} ]%string = VConnect ["int"; "bool"]%string).
